@@ -509,3 +509,14 @@ ENTRIES += [
     M("C17-cmc-hill-frequency", "C17", "C17.6", (CMC, "        x_dd = self.power * a - 0.0025 * jnp.cos(3.0 * x)", "        x_dd = self.power * a - 0.0025 * jnp.cos(2.0 * x)"), tier="thorough"),
     M("C17-acrobot-nips", "C17", "C17.6", (ACR, "            + d2 / d1 * phi1\n            - self.link_mass_2\n            * self.link_length_1\n            * self.link_com_pos_2\n            * theta1_d**2\n            * jnp.sin(theta2)\n            - phi2", "            + d2 / d1 * phi1\n            - phi2"), tier="thorough", stale_ok=True),
 ]
+
+ENTRIES += [
+    # ---------------------------------------------------------------- later additions
+    M("C15-sac-bounds-swapped", "C15", "C15.3", (PS, "                high=self.action_space.high,\n                low=self.action_space.low,\n            )\n        else:", "                high=self.action_space.low,\n                low=self.action_space.high,\n            )\n        else:")),
+    M("C13-flatten-wrong-size", "C13", "C13.5", (WTO, "shape=(int(jnp.asarray(self.env.observation_space.flat_size)),)", "shape=(int(jnp.asarray(self.env.action_space.flat_size)),)")),
+    M("C13-transform-obs-ctor-swap", "C13", "C13.5", (WTO, "        self.env = env\n        self.func = func\n        self.observation_space = observation_space", "        self.env = env\n        self.func = observation_space\n        self.observation_space = func")),
+    M("C06-init-position-one", "C06", "C06.1", (RPB, "        self.position = jnp.array(0, dtype=int)", "        self.position = jnp.array(1, dtype=int)")),
+    M("C06-init-actions-from-obs", "C06", "C06.2", (RPB, "        self.actions = jax.tree.map(init_leaf, action_space.canonical())", "        self.actions = jax.tree.map(init_leaf, observation_space.canonical())")),
+    M("C10-train-on-stale-buffer", "C10", "C10.2", (OFP, "            state.policy, state.opt_state, step_state.buffer, key=train_key", "            state.policy, state.opt_state, state.step_state.buffer, key=train_key")),
+    M("C08-a2c-loss-unflattened", "C08", "C08.6", (A2C, "            policy,\n            flat_buffer,\n            self.normalize_advantages,", "            policy,\n            buffer,\n            self.normalize_advantages,")),
+]
